@@ -499,6 +499,7 @@ pub enum DurClass {
 /// the systematic timing cross product of DESIGN §5.2
 pub fn lane_timing(tier: Tier, seed: u64) -> Vec<Scenario> {
     let mut out = vec![];
+    let mut tests_made = 0usize;
     let mut g = G::new(seed ^ 0x71e);
     let classes = [
         DurClass::Short,
@@ -614,6 +615,11 @@ pub fn lane_timing(tier: Tier, seed: u64) -> Vec<Scenario> {
                             // exact ties need exact child timing
                             sim.swarm.spawn_latency_max_ns = 1;
                             sim.swarm.chunk_gap_max_ns = 0;
+                            // both resolutions of an exact tie, alternating (not left to the draw)
+                            if cls == DurClass::Tie {
+                                sim.swarm.tie = 1 + ((pos + tests_made) % 2) as u8;
+                                tests_made += 1;
+                            }
                             let mut tests = vec![];
                             for k in 0..3 {
                                 let plan = if k == pos {
